@@ -19,16 +19,23 @@ import (
 // connection handler has finished - for any schedule of connections being established
 // concurrently with shutdown.
 //
-// Scenario "c36", arg "<pre>:<arrivals>" with clients written <id><version>: the
+// Scenario "c36", arg "<pre>:<arrivals>" with clients written <id><version>[h|s]: the
 // pre-clients are connected one at a time through the real listeners.Net accept loop
 // (in-memory net.Listener), then the arrivals are queued on the listener (CONNECT already
 // sent) and Server.Close() is started as a thread; all interleavings of the accept loop,
 // the connection handlers and Close within the deviation bound are executed.
+// A client marked h has sent only the first half of its CONNECT packet, a client marked s
+// nothing at all, when Close begins (the peer is slow, not faulty): a pre-client of this
+// kind has been accepted and its handler is blocked reading the CONNECT when Close is
+// called. The remainder of the packet is delivered when the system has come to rest, and
+// the run continues (still exploring) to the final quiescence.
 //
 // Oracle (from the property statement only):
 //   at the instant Close returns (sampled by the closing thread itself, no scheduling
 //   point in between):
-//     must: the listener is closed; no connection-handler thread is unfinished;
+//     must: the listener is closed; no connection-handler thread is unfinished - in
+//           particular not the handler of a connection that was accepted, and was already
+//           reading its CONNECT packet, before Close was called;
 //   at quiescence, if Close returned:
 //     must: every connection the listener handed out (Accept returned it) is closed;
 //     must: a later dial is not accepted;
@@ -84,11 +91,34 @@ func (c36Addr) String() string  { return "c36listener" }
 
 func (l *c36Listener) Addr() net.Addr { return c36Addr{} }
 
+// c36Att is one client of a scenario: Part "" (whole CONNECT sent at once), "h" (first
+// half sent, rest later) or "s" (silent at first, whole CONNECT later).
+type c36Att struct {
+	c35Att
+	Part string
+}
+
+func c36ParseClients(s string) []c36Att {
+	var out []c36Att
+	for _, f := range strings.Split(s, "+") {
+		if f == "" {
+			continue
+		}
+		part := ""
+		if l := f[len(f)-1]; l == 'h' || l == 's' {
+			part, f = string(l), f[:len(f)-1]
+		}
+		out = append(out, c36Att{c35Att: c35Att{ID: f[:len(f)-1], Ver: f[len(f)-1] - '0'}, Part: part})
+	}
+	return out
+}
+
 type c36Snap struct {
 	taken          bool
 	listenerClosed bool
 	handlersAlive  []string // handlers of connections that arrived during Close
 	countedAlive   []string // handlers of clients connected before Close began
+	readingAlive   []string // handlers that were reading their CONNECT packet before Close began
 	openAccepted   []int
 	writeLoops     int
 }
@@ -97,8 +127,8 @@ func c36IsHandler(name string) bool { return strings.HasPrefix(name, "listeners/
 
 func c36Run(arg string) explore.RunFn {
 	parts := strings.SplitN(arg, ":", 2)
-	pre := c35ParseClients(parts[0])
-	arr := c35ParseClients(parts[1])
+	pre := c36ParseClients(parts[0])
+	arr := c36ParseClients(parts[1])
 	return func(prefix []int) explore.Outcome {
 		w := world.New(prefix, world.Config{})
 		defer w.End()
@@ -109,7 +139,8 @@ func c36Run(arg string) explore.RunFn {
 		zzvrt.Go("serve", func() { _ = w.S.Serve() })
 		w.Run()
 		var clients []*world.Client
-		dial := func(a c35Att) *world.Client {
+		rest := map[*world.Client][]byte{} // bytes of the CONNECT packet the peer has not sent yet
+		dial := func(a c36Att) *world.Client {
 			c := &world.Conn{ID: len(w.Conns), X: w.X}
 			w.Conns = append(w.Conns, c)
 			p := world.ConnectPacket(a.ID, a.Ver, false)
@@ -117,7 +148,16 @@ func c36Run(arg string) explore.RunFn {
 				p.Props = append(p.Props, ref.Prop{ID: ref.PSessionExpiry, Num: 60})
 			}
 			cl := &world.Client{W: w, C: c, Ver: a.Ver, ID: a.ID}
-			c.Send(ref.Encode(p, a.Ver, ref.EncOpts{}))
+			b := ref.Encode(p, a.Ver, ref.EncOpts{})
+			switch a.Part {
+			case "h":
+				c.Send(b[:len(b)/2])
+				rest[cl] = b[len(b)/2:]
+			case "s":
+				rest[cl] = b
+			default:
+				c.Send(b)
+			}
 			l.queue = append(l.queue, c)
 			clients = append(clients, cl)
 			return cl
@@ -128,6 +168,20 @@ func c36Run(arg string) explore.RunFn {
 		}
 		for _, c := range clients {
 			c.Poll()
+		}
+		// non-vacuity of the slow-peer pre-clients: their handlers are inside the broker, blocked
+		// in Read on their own connection, before Close is called
+		readingBefore := 0
+		for i, a := range pre {
+			if a.Part == "" {
+				continue
+			}
+			want := fmt.Sprintf("conn%d.Read", clients[i].C.ID)
+			for _, t := range w.X.Threads() {
+				if c36IsHandler(t.Name) && !t.Done && t.Blocked == zzvrt.BlockIO && t.What == want {
+					readingBefore++
+				}
+			}
 		}
 		for _, a := range arr {
 			dial(a)
@@ -145,7 +199,9 @@ func c36Run(arg string) explore.RunFn {
 				if c36IsHandler(t.Name) {
 					// handlers are started in accept order: the first len(pre) belong to the clients
 					// that were fully connected (and counted by ClientsWg) before Close began
-					if !t.Done && hi < len(pre) {
+					if !t.Done && hi < len(pre) && pre[hi].Part != "" {
+						snap.readingAlive = append(snap.readingAlive, fmt.Sprintf("%s(client %s, blocked=%s %s)", t.Name, pre[hi].ID, t.Blocked, t.What))
+					} else if !t.Done && hi < len(pre) {
 						snap.countedAlive = append(snap.countedAlive, fmt.Sprintf("%s(blocked=%s %s)", t.Name, t.Blocked, t.What))
 					} else if !t.Done {
 						snap.handlersAlive = append(snap.handlersAlive, fmt.Sprintf("%s(blocked=%s %s)", t.Name, t.Blocked, t.What))
@@ -164,9 +220,25 @@ func c36Run(arg string) explore.RunFn {
 		})
 		w.Explore(true)
 		w.Run()
+		returnedBeforeRest := returned
+		if len(rest) > 0 {
+			// the slow peers complete their CONNECT packets now
+			for _, c := range clients {
+				if b, ok := rest[c]; ok {
+					c.C.Send(b)
+				}
+			}
+			w.Run()
+		}
 		w.Explore(false)
 
 		o := explore.Outcome{Points: w.X.Points, Divergence: w.X.Divergence(), Steps: w.X.Steps(), StepLog: w.X.StepLog, Counters: map[string]int{}}
+		if readingBefore > 0 {
+			o.Counters["handler_reading_connect_when_close_called"] = 1
+			if !returnedBeforeRest {
+				o.Counters["close_waited_for_handler_reading_connect"] = 1
+			}
+		}
 		o.Viol = runtimeViolations(w)
 		seen := map[string]bool{}
 		add := func(key, msg string) {
@@ -220,6 +292,9 @@ func c36Run(arg string) explore.RunFn {
 			if len(snap.countedAlive) > 0 {
 				add("outlives-close:close-does-not-wait-for-connected-client-handler", fmt.Sprintf("Close returned while the handler of a client that was connected before Close began was unfinished: %v; %s", snap.countedAlive, desc()))
 			}
+			if len(snap.readingAlive) > 0 {
+				add("outlives-close:close-does-not-wait-for-handler-reading-connect", fmt.Sprintf("Close returned while a connection handler that had been started, and was reading its CONNECT packet, before Close was called was unfinished: %v; connections open at that instant: %v; %s", snap.readingAlive, snap.openAccepted, desc()))
+			}
 			if len(snap.handlersAlive) > 0 {
 				add("outlives-close:handler-before-wg-add", fmt.Sprintf("Close returned while connection handlers were unfinished (they had not yet been counted by ClientsWg): %v; connections open at that instant: %v; %s", snap.handlersAlive, snap.openAccepted, desc()))
 			}
@@ -229,7 +304,7 @@ func c36Run(arg string) explore.RunFn {
 				}
 				if c.C.Pending() > 0 && len(c.C.Out) == 0 && nHandlers < len(l.Accepted) {
 					add("outlives-close:accepted-conn-dropped-unclosed", fmt.Sprintf("conn%d was returned by Accept but neither handled nor closed (the accept loop saw the end flag); %s", c.C.ID, desc()))
-				} else if len(snap.handlersAlive)+len(snap.countedAlive) == 0 {
+				} else if len(snap.handlersAlive)+len(snap.countedAlive)+len(snap.readingAlive) == 0 {
 					add("outlives-close:connection-open-at-quiescence", fmt.Sprintf("conn%d (%s) is still open after Close returned; %s", c.C.ID, c.ID, desc()))
 				}
 			}
@@ -300,7 +375,7 @@ func c36Run(arg string) explore.RunFn {
 	}
 }
 
-var c36Scen = []string{":c4", ":c5", "a5:c4", "a4:c5", "a5:c5", ":c4+d5", "a5:c4+d5", "a5:a5", "a4:", "a5:"}
+var c36Scen = []string{"a5h:", "a4s:c5", ":c4", ":c5", "a5:c4", "a4:c5", "a5:c5", ":c4+d5", "a5:c4+d5", "a5:a5", "a4:", "a5:"}
 
 func init() {
 	explore.RegisterDFS("c36", c36Run)
@@ -308,7 +383,7 @@ func init() {
 		c.Rep.Level = "model_checking"
 		c.Rep.Assumption("threads are serialised by the cooperative scheduler (sequentially consistent interleavings only); WaitGroup modelled as a counter (Add after Wait returned is not reported as misuse)")
 		c.Rep.Assumption("in-memory net.Listener/net.Conn: Accept, Read, Write, Close are scheduling points; a connection not yet returned by Accept when the listener closes is outside the broker's responsibility")
-		c.Rep.Assumption("clients send CONNECT and then stay idle (keepalive 0): nothing but Close can end their connection")
+		c.Rep.Assumption("clients send CONNECT and then stay idle (keepalive 0): nothing but Close can end their connection; a slow peer (h: half of the CONNECT packet, s: nothing sent when Close is called) delivers the rest of its CONNECT once the system has come to rest")
 		bounds := []explore.Bounds{{Preempt: 0}, {Preempt: 1}, {Preempt: 2}}
 		per := 6 * time.Second
 		if !c.Quick() {
@@ -319,6 +394,11 @@ func init() {
 		for _, s := range c36Scen {
 			a.run("c36", s, bounds, per)
 		}
-		a.requireCounters("close_returned", "arrival_accepted_during_close", "arrival_established", "v5_got_0x8B")
+		if !c.Quick() {
+			for _, s := range []string{"a4h:", "a5s:", "a5h:c4", "a5+b4h:", ":c5h", "a5:c4s"} {
+				a.run("c36", s, bounds, per)
+			}
+		}
+		a.requireCounters("close_returned", "arrival_accepted_during_close", "arrival_established", "v5_got_0x8B", "handler_reading_connect_when_close_called")
 	})
 }
